@@ -115,14 +115,14 @@ func encryptSide(r *mon.Run) {
 		}
 	}
 	lists = append(lists, []string{"U4", "X1"}, []string{"E1", "U4"}, []string{"R5"}, []string{"R6", "X1"}, []string{"R4"})
-	full := []string{"X1", "X2", "X3", "E1", "E2", "E3", "R1", "R2", "R3", "R4", "R5", "R6", "U0", "U1", "U2", "U3", "U4"}
+	full := []string{"X1", "X2", "X3", "E1", "E2", "E3", "R1", "R2", "R3", "R4", "R5", "R6", "U0", "U1", "U2", "U3", "U4", "A1", "A2", "A3"}
 	for i := 0; i < r.Pick(60, 400); i++ {
 		n := 3 + rng.Intn(5)
 		var l []string
 		hasKey := false
 		for j := 0; j < n; j++ {
 			x := full[rng.Intn(len(full))]
-			if x[0] != 'U' {
+			if keys.P(x).Kind != 'U' {
 				hasKey = true
 			}
 			l = append(l, x)
@@ -135,7 +135,7 @@ func encryptSide(r *mon.Run) {
 	for li, l := range lists {
 		keyed := false
 		for _, n := range l {
-			keyed = keyed || n[0] != 'U'
+			keyed = keyed || keys.P(n).Kind != 'U'
 		}
 		if !keyed {
 			continue // the reference needs at least one recipient it holds a key for
